@@ -2045,8 +2045,11 @@ class latest(Stream):
     @gen.coroutine
     def cb(self):
         while True:
-            yield self.condition.wait()
+            while not self.next:
+                # re-check the slot: a notification that found no waiter is not lost
+                yield self.condition.wait()
             [x] = self.next
+            self.next = []  # consumed: a later notification cannot deliver it again
             yield self._emit(x, self.next_metadata)
 
 
